@@ -1229,6 +1229,164 @@ class PackagesInit(FnSpec):
         ]
 
 
+# ---- TOCLinks.__init__: the uuid -> link path table rebuilt from all link nodes on open -----------------------------------------------
+SGrp = z3.DeclareSort("SchemaLinkGroup")
+IN_GROUP = z3.Function("link_of_uuid_sits_in_schema_group", SGrp, UU, z3.BoolSort())
+LINK_NODE_PATH = z3.Function("path_of_the_link_node", SGrp, UU, S_)
+
+
+class TSGrp:
+    def sort(self):
+        return SGrp
+
+    def wrap(self, t):
+        return SGrpV(t)
+
+    def unwrap(self, cx, v):
+        return v.t
+
+
+class SGrpV(SVal):
+    def __init__(self, t):
+        self.t = t
+
+    def py_isinstance(self, cx, c):
+        return getattr(c, "name", c) in ("H5GroupLike", "object")
+
+    def meth_items(self, cx):
+        me = self
+
+        class _It(SVal):
+            def py_iter_schema(s, cx2):
+                from pyvc.containers import SetIter
+
+                u = z3.Const(fresh_name("gu"), UU)
+                return SetIter(TUuid(), z3.Lambda([u], IN_GROUP(me.t, u)), lambda ut: (UuidText(ut), LinkNodeV(me.t, ut)))
+
+        return _It()
+
+
+class UuidText(SVal):
+    """the name of a link node: str(uuid)"""
+
+    def __init__(self, u):
+        self.u = u
+
+
+class LinkNodeV(SVal):
+    def __init__(self, g, u):
+        self.g, self.u = g, u
+
+    def py_isinstance(self, cx, c):
+        return getattr(c, "name", c) in ("H5DatasetLike", "object")
+
+    def py_getattr(self, cx, n):
+        if n == "name":
+            return SStr(LINK_NODE_PATH(self.g, self.u))
+        raise Unsupported("link node attribute " + n)
+
+
+class LinksInitRaw(SVal):
+    def __init__(self, groups):
+        self.groups = groups
+
+    def py_contains(self, cx, k):
+        if k != "<METADOR_LINKS_PATH>":
+            raise Unsupported("membership of " + repr(k))
+        return z3.Not(is_empty_set(self.groups))
+
+    def meth_require_group(self, cx, k):
+        return self
+
+    def py_isinstance(self, cx, c):
+        return getattr(c, "name", c) in ("H5GroupLike", "object")
+
+    def meth_values(self, cx):
+        me = self
+
+        class _It(SVal):
+            def py_iter_schema(s, cx2):
+                from pyvc.containers import SetIter
+
+                return SetIter(TSGrp(), me.groups.dom, lambda gt: SGrpV(gt))
+
+        return _It()
+
+
+class LinksInitObj(SObj):
+    def py_setattr(self, cx, name, val):
+        if name == "_toc_path" and isinstance(val, dict) and not val:
+            val = SMap(TUuid(), STR, name="toc_path")
+        SObj.py_setattr(self, cx, name, val)
+
+
+class LinksInit(FnSpec):
+    file = "container/interface.py"
+    qual = "TOCLinks.__init__"
+    props = ("C06",)
+
+    def init(self):
+        self.bindings["M"] = MStub()
+        self.bindings["H5GroupLike"] = SClass("H5GroupLike")
+        self.bindings["H5DatasetLike"] = SClass("H5DatasetLike")
+        self.bindings["UUID"] = lambda cx, t: UuidV(t.u) if isinstance(t, UuidText) else (_ for _ in ()).throw(Unsupported("UUID of another text"))  # UUID(str(u)) == u
+
+        def inv_outer(cx, env, it):
+            a = cx.ghost["li"]
+            tp = a.self.fields["_toc_path"]
+            u = z3.Const(fresh_name("ou"), UU)
+            g = z3.Const(fresh_name("og"), SGrp)
+            a.outer_it = it
+            return [
+                ("links-of-the-groups-read-so-far", z3.ForAll([g, u], z3.Implies(z3.And(z3.Select(it.processed, g), IN_GROUP(g, u)), z3.And(tp.has(u), tp.get_term(u) == LINK_NODE_PATH(g, u))))),
+                ("nothing-else", z3.ForAll([u], z3.Implies(tp.has(u), z3.And(z3.Select(it.processed, a.grp_of(u)), IN_GROUP(a.grp_of(u), u))))),
+            ]
+
+        def inv_inner(cx, env, it):
+            a = cx.ghost["li"]
+            tp = a.self.fields["_toc_path"]
+            cur = env["schema_link_grp"].t
+            proc = a.outer_it.processed
+            u = z3.Const(fresh_name("iu"), UU)
+            g = z3.Const(fresh_name("ig"), SGrp)
+            return [
+                ("links-of-earlier-groups-and-of-this-one-so-far", z3.ForAll([g, u], z3.Implies(z3.And(IN_GROUP(g, u), z3.Or(z3.Select(proc, g), z3.And(g == cur, z3.Select(it.processed, u)))), z3.And(tp.has(u), tp.get_term(u) == LINK_NODE_PATH(g, u))))),
+                ("nothing-else", z3.ForAll([u], z3.Implies(tp.has(u), z3.And(IN_GROUP(a.grp_of(u), u), z3.Or(z3.Select(proc, a.grp_of(u)), z3.And(a.grp_of(u) == cur, z3.Select(it.processed, u))))))),
+            ]
+
+        self.loops[0] = LoopSpec(inv_outer, modifies=["schema_link_grp", "uuid", "link_node"], havoc_inplace=["self._toc_path"])
+        self.loops[1] = LoopSpec(inv_inner, modifies=["uuid", "link_node"], havoc_inplace=["self._toc_path"])
+
+    def setup(self, cx):
+        o = LinksInitObj("TOCLinks", name="self")
+        groups = SSet.fresh(TSGrp(), "schema_link_groups")
+        a = A(self=o, raw_cont=LinksInitRaw(groups), toc_schemas=SObj("TocSchemasStub", name="toc_schemas"))
+        a.groups = groups
+        a.grp_of = z3.Function("group_holding_the_link_of", UU, SGrp)
+        g, g2 = z3.Consts("ug ug2", SGrp)
+        u = z3.Const("uu", UU)
+        # TocInv: a uuid has at most one link (uuids are unique in the container), so the group holding it is a function of the uuid
+        cx.assume(z3.ForAll([g, u], z3.Implies(IN_GROUP(g, u), a.grp_of(u) == g)))
+        a.outer_it = None
+        cx.ghost["li"] = a
+        return a
+
+    def raises(self, cx, a):
+        return {}
+
+    def ensures(self, cx, a, res):
+        tp = a.self.fields.get("_toc_path")
+        if not isinstance(tp, SMap):
+            return [("table-initialised", z3.BoolVal(False), "")]
+        u = z3.Const(fresh_name("eu"), UU)
+        g = z3.Const(fresh_name("eg"), SGrp)
+        return [
+            ("every-stored-link-is-in-the-table", z3.ForAll([g, u], z3.Implies(z3.And(a.groups.has(g), IN_GROUP(g, u)), z3.And(tp.has(u), tp.get_term(u) == LINK_NODE_PATH(g, u)))), "after (re)opening, EVERY link node of EVERY schema group is known under its uuid with the link node's path — not only those of the last group read"),
+            ("and-nothing-else", z3.ForAll([u], z3.Implies(tp.has(u), z3.And(a.groups.has(a.grp_of(u)), IN_GROUP(a.grp_of(u), u)))), "the table holds no uuid without a stored link (empty when the container has no links group)"),
+            ("fields-wired", z3.BoolVal(a.self.fields.get("_raw") is a.raw_cont and a.self.fields.get("_toc_schemas") is a.toc_schemas), "raw container and schema table are the ones given"),
+        ]
+
+
 def add_tocreg(reg):
     reg.set_class_home("TOCPackages", "container/interface.py")
     reg.attr_bindings[("PkgInfo", "plugins")] = lambda cx, o: PluginsStub(o.t)
@@ -1239,7 +1397,7 @@ def add_tocreg(reg):
     reg.attr_bindings[("PkgInfo", "version")] = lambda cx, o: VER.wrap(INFO_VER(o.t))
     reg.attr_bindings[("SchemaRef", "name")] = lambda cx, o: SStr(REF_NAME(o.t))
     reg.attr_bindings[("SchemaRef", "version")] = lambda cx, o: VER.wrap(REF_VER(o.t))
-    specs = [AddProviders(), PkgRegister(), PkgUnregister(), SchemaRegister(), SchemaUnregister(), LinksRegister(), LinksUnregister(), LinksUpdate(), SchemasInit(), PackagesInit()]
+    specs = [AddProviders(), PkgRegister(), PkgUnregister(), SchemaRegister(), SchemaUnregister(), LinksRegister(), LinksUnregister(), LinksUpdate(), SchemasInit(), PackagesInit(), LinksInit()]
     for s in specs:
         reg.add(s)
     return specs
